@@ -123,6 +123,10 @@ type spec struct {
 	// tlsBackend: the chosen backend is an https:// URL (plain front, re-encryption behind)
 	tlsBackend bool
 	upgrade    bool // the client asks for a protocol switch (Connection: Upgrade + Upgrade header)
+	// noHost: an HTTP/1.0 request without a Host header (valid for that protocol version)
+	noHost bool
+	// pad: how the elements of a Connection list are separated (", ", ",", ",\t", " , ")
+	pad string
 }
 
 func genSpec(t *rapid.T) *spec {
@@ -181,6 +185,8 @@ func genSpec(t *rapid.T) *spec {
 	}
 	s.tls = rapid.Bool().Draw(t, "tls")
 	s.passHost = rapid.Bool().Draw(t, "passHost")
+	s.noHost = !s.upgrade && rapid.IntRange(0, 7).Draw(t, "http10WithoutHost") == 0
+	s.pad = rapid.SampledFrom([]string{", ", ", ", ", ", ",", ",\t", " , ", ",  ", "\t,\t"}).Draw(t, "connectionListPadding")
 	otherForwarders = rapid.IntRange(0, 2).Draw(t, "otherForwarderInProcess") == 0
 	frontLayer = rapid.SampledFrom([]string{"", "", "", "stream-verbose", "buffer", "buffer-verbose", "roundrobin-verbose", "statelistener"}).Draw(t, "frontLayer")
 	callerBuilt = rapid.IntRange(0, 3).Draw(t, "callerBuiltRequest") == 0
@@ -209,12 +215,20 @@ func genSpec(t *rapid.T) *spec {
 
 func (s *spec) raw() string {
 	var b strings.Builder
-	fmt.Fprintf(&b, "%s %s HTTP/1.1\r\nHost: %s\r\n", s.method, s.target, s.host)
+	if s.noHost {
+		fmt.Fprintf(&b, "%s %s HTTP/1.0\r\n", s.method, s.target)
+	} else {
+		fmt.Fprintf(&b, "%s %s HTTP/1.1\r\nHost: %s\r\n", s.method, s.target, s.host)
+	}
 	for _, h := range s.headers {
 		fmt.Fprintf(&b, "%s: %s\r\n", h.k, h.v)
 	}
 	for _, l := range s.connLines {
-		fmt.Fprintf(&b, "Connection: %s\r\n", strings.Join(l, ", "))
+		pad := s.pad
+		if pad == "" {
+			pad = ", "
+		}
+		fmt.Fprintf(&b, "Connection: %s\r\n", strings.Join(l, pad))
 	}
 	if s.body != "" {
 		fmt.Fprintf(&b, "Content-Length: %d\r\n", len(s.body))
@@ -389,7 +403,7 @@ func check(fatalf func(string, ...any), s *spec) (discarded bool) {
 	}
 	// 2. Host
 	wantHost := be.Addr()
-	if s.passHost {
+	if s.passHost && clientHost != "" {
 		wantHost = clientHost
 	}
 	if h := got.Get("Host"); len(h) != 1 || h[0] != wantHost {
@@ -461,7 +475,14 @@ func check(fatalf func(string, ...any), s *spec) (discarded bool) {
 			bad("X-Forwarded-Proto %q, want %q", v, w)
 		}
 	}
-	if v, ok := one("X-Forwarded-Host"); ok {
+	if _, sup := supplied("X-Forwarded-Host"); clientHost == "" && !sup {
+		// the client named no host: there is nothing to report, least of all the backend's own address
+		for _, v := range got.Get("X-Forwarded-Host") {
+			if v == be.Addr() || v == req.URL.Host {
+				bad("the client sent no Host; X-Forwarded-Host %q names the backend, not the incoming connection", v)
+			}
+		}
+	} else if v, ok := one("X-Forwarded-Host"); ok {
 		w := clientHost
 		if sv, sup := supplied("X-Forwarded-Host"); sup {
 			w = sv
